@@ -24,7 +24,8 @@ RULE = ("case = (key, prefix, allow_unicode_keys, path); path in helper (check_k
         "bytes, none of the 7 forbidden bytes); accepted => returned/transmitted key == prefix+encoded; rejected => "
         "MemcacheIllegalInputError - also with ignore_exc=True on Client and HashClient, whose key check sits outside the handlers that turn failures into misses (PooledClient's read wrappers swallow every exception under ignore_exc by design, so that combination is not generated). The client's data `encoding` option (ascii/utf-8/latin-1) is varied as well: it must not influence which keys are legal. Keys whose prefixed form is empty are excluded (C02 covers them). Server unreachable: twelve operations (stores, reads, multi-key) with legal and illegal keys while the server refuses connections or times out - an illegal key is still rejected with MemcacheIllegalInputError, before anything is written. Same-object histories: sequences of 2-3 validations on ONE client object, each token used as a key (client's prefix) or as a `stats` argument (validated with an empty prefix), through Client.check_key(key, prefix) and over the wire on Client/PooledClient/HashClient - the verdict may depend on the token and the prefix only, not on what the object validated before. Non-trivial: "
         "the key contains a forbidden or non-ASCII byte, or prefix+key is within 2 bytes of 250. allow_unicode_keys is also given as a truthy / falsy non-bool (1, 'yes', 2, 1.0 / 0, '', None), which must behave as True / False. The ElastiCache subclass is a path like HashClient. Key objects of bytes / str subclasses with their own ==, != or truth value are judged by their content. One illegal key among 1 to 1000 (thorough 5000) legal ones in get_many / gets_many / delete_many / set_many, first, in the middle or last."
-        + ' Illegal keys together with a value the serializer refuses (a raising serializer, pickle of a lambda) through every store command: the key is judged first.')
+        + ' Illegal keys together with a value the serializer refuses (a raising serializer, pickle of a lambda) through every store command: the key is judged first.'
+        + " Server unreachable also covers a HashClient whose only server has been given up (retry_attempts=0, one failed call; ignore_exc off and on): with nothing in rotation an illegal key is still rejected with MemcacheIllegalInputError - not 'all servers down', not a miss - and a legal one is not.")
 MANIFEST = {
     "category": "exploration",
     "technique": "bounded-exhaustive enumeration over byte-class representatives and the full byte alphabet for short keys + Hypothesis random keys/prefixes, decided by an independent validity predicate (specification oracle) and by the wire key seen by a strict server model",
@@ -365,7 +366,7 @@ def down_cases(tier, seed):
     for key in keys:
         for kind in ("client", "pooled", "hash", "hash-pooled"):
             for opn in DOWN_OPS:
-                for how in ("refused", "timeout"):
+                for how in ("refused", "timeout") + (("given-up", "given-up-ie") if kind.startswith("hash") else ()):
                     for pfx in (b"", b"p:"):
                         yield (key, kind, opn, how, pfx)
 
@@ -373,8 +374,16 @@ def down_cases(tier, seed):
 def check_down(case):
     key, kind, opn, how, pfx = case
     env = Env()
-    env.server.down = how
-    c = env.client(kind, key_prefix=pfx, default_noreply=False)
+    if how.startswith("given-up"):
+        # a HashClient whose only server has been given up (retry_attempts=0, one failed call): nothing is in rotation. The
+        # verdict on a key does not depend on that - with ignore_exc an illegal key is not a miss either
+        env.server.down = "refused"
+        c = env.client(kind, key_prefix=pfx, default_noreply=False, retry_attempts=0, ignore_exc=how.endswith("-ie"))
+        env.call(c.get, "fine")
+        del env.net.log[:]
+    else:
+        env.server.down = how
+        c = env.client(kind, key_prefix=pfx, default_noreply=False)
     want = spec(key, pfx, False)
     args = {"get": (key,), "gets": (key,), "delete": (key,), "set": (key, b"v"), "add": (key, b"v"), "append": (key, b"v"), "incr": (key, 1), "touch": (key, 5),
             "cas": (key, b"v", b"1"), "set_many": ({"good": b"1", key: b"2"},), "get_many": (["good", key],), "delete_many": (["good", key],)}[opn]
